@@ -33,6 +33,7 @@ func NewMailboxTracker(numMessages uint32) *MailboxTracker {
 func (t *MailboxTracker) NewSession() *SessionTracker {
 	st := &SessionTracker{mailbox: t}
 	t.mutex.Lock()
+	st.numMessages = t.numMessages
 	t.sessions[st] = struct{}{}
 	t.mutex.Unlock()
 	return st
@@ -114,9 +115,12 @@ type trackerUpdateFetch struct {
 type SessionTracker struct {
 	mailbox *MailboxTracker
 
-	mutex   sync.Mutex
-	queue   []trackerUpdate
-	updates chan<- struct{}
+	mutex sync.Mutex
+	// number of messages in the client's view once all updates dequeued so
+	// far have been applied
+	numMessages uint32
+	queue       []trackerUpdate
+	updates     chan<- struct{}
 }
 
 // Close unregisters the session.
@@ -164,6 +168,14 @@ func (t *SessionTracker) Poll(w *UpdateWriter, allowExpunge bool) error {
 			t.queue = t.queue[stopIndex:]
 		} else {
 			t.queue = nil
+		}
+	}
+	for _, update := range updates {
+		switch {
+		case update.expunge != 0:
+			t.numMessages--
+		case update.numMessages != 0:
+			t.numMessages = update.numMessages
 		}
 	}
 	t.mutex.Unlock()
@@ -270,10 +282,24 @@ func (t *SessionTracker) EncodeSeqNum(seqNum uint32) uint32 {
 		return 0
 	}
 
+	// Number of messages in the client's view before each pending update
+	numMessages := make([]uint32, len(t.queue))
+	n := t.numMessages
+	for i, update := range t.queue {
+		numMessages[i] = n
+		switch {
+		case update.expunge != 0:
+			n--
+		case update.numMessages != 0:
+			n = update.numMessages
+		}
+	}
+
 	for i := len(t.queue) - 1; i >= 0; i-- {
 		update := t.queue[i]
-		// TODO: this doesn't handle increments > 1
-		if update.numMessages != 0 && seqNum == update.numMessages {
+		if update.numMessages != 0 && seqNum > numMessages[i] {
+			// The message has been added by this update, which the client
+			// doesn't know about yet
 			return 0
 		}
 		if update.expunge != 0 && seqNum >= update.expunge {
